@@ -4,6 +4,7 @@ import (
 	"fmt"
 	"strconv"
 	"testing"
+	"time"
 
 	"pgregory.net/rapid"
 
@@ -25,6 +26,7 @@ func init() {
 		passThroughNames[n] = true
 	}
 	register("c03.pipe", evalC03)
+	register("c03.child", evalC03Child)
 }
 
 func evalC03(c pipeCase) *Failure {
@@ -104,7 +106,11 @@ func evalC03(c pipeCase) *Failure {
 					if !frames[i].IsError() {
 						return failf("c03|handler-error", "%s: request %d (%s): the handler returned an error, the reply is %s", what, i, name, frames[i])
 					}
-				} else if cl.Ret != nil && !frames[i].Equal(*cl.Ret) {
+				} else if cl.Ret == nil {
+					if !frames[i].IsError() {
+						return failf("c03|handler-nil", "%s: request %d (%s): the handler returned nothing, the reply is %s (want an error reply)", what, i, name, frames[i])
+					}
+				} else if !frames[i].Equal(*cl.Ret) {
 					return failf("c03|order", "%s: reply %d is %s but the handler call made for request %d returned %s", what, i, frames[i], i, *cl.Ret)
 				}
 			}
@@ -129,6 +135,45 @@ func evalC03(c pipeCase) *Failure {
 	return nil
 }
 
+// c03Child: requests with extreme count-like arguments against the example server as a separate process;
+// every request must be answered (a request that never returns can be killed with the process).
+type c03Child struct {
+	Reqs [][]string `json:"reqs"`
+}
+
+func evalC03Child(c c03Child) *Failure {
+	cs, err := startChildServer(8 << 30)
+	if err != nil {
+		return failf("harness|child", "%v", err)
+	}
+	defer cs.stop()
+	conn, err := cs.dial()
+	if err != nil {
+		return failf("harness|dial", "%v", err)
+	}
+	defer conn.Close()
+	for _, s := range c07Setup {
+		if _, err := roundTrip(conn, resp.Cmd(s...).Bytes(), 5*time.Second); err != nil {
+			return failf("harness|setup", "%v", err)
+		}
+	}
+	for i, r := range c.Reqs {
+		if _, err := roundTrip(conn, resp.Cmd(r...).Bytes(), 10*time.Second); err != nil {
+			if !cs.alive() {
+				return failf("c03|child|process-died", "request %d %v: the server process died: %s", i, r, firstLines(cs.stderr.String(), 3))
+			}
+			return failf("c03|child|no-reply", "request %d %v was not answered within 10s (%v): the connection stalls or spins", i, r, err)
+		}
+	}
+	return nil
+}
+
+var c03Extreme = [][]string{{"LPOP", "list", "9223372036854775807"}, {"RPOP", "list", "9223372036854775807"}, {"LRANGE", "list", "0", "9223372036854775807"},
+	{"LRANGE", "list", "-9223372036854775808", "9223372036854775807"}, {"ZRANGE", "zset", "0", "9223372036854775807"}, {"ZRANGE", "zset", "-9223372036854775808", "9223372036854775807", "REV"},
+	{"ZREVRANGE", "zset", "-9223372036854775808", "9223372036854775807"}, {"ZRANGEBYSCORE", "zset", "-inf", "+inf", "LIMIT", "0", "9223372036854775807"}, {"LINDEX", "list", "-9223372036854775808"},
+	{"GETRANGE", "str", "-9223372036854775808", "9223372036854775807"}, {"SCAN", "0", "COUNT", "9223372036854775807"}, {"ZADD", "zset", "NX", "CH", "1", "m"}, {"ZADD", "zset", "XX", "GT", "INCR", "1", "a"},
+	{"SETEX", "str", "9223372036854775807", "v"}, {"EXPIRE", "str", "-9223372036854775808"}, {"DECRBY", "num", "-9223372036854775808"}, {"SELECT", "9223372036854775807"}}
+
 func TestC03(t *testing.T) {
 	h := newHarness(t, "C03", "pipelines of 1..12 requests drawn from every registered command (well-formed from the grammar with all option flags, ill-formed table entries, surplus arguments, unknown names; QUIT at a random position in 20%) "+
 		"x chunkings of the byte stream (whole, per request, per byte, random k-way biased to length prefixes and CR|LF) x scripted handler errors. Oracle: strict decoder splits the output into exactly one frame per request up to the first QUIT; "+
@@ -136,6 +181,23 @@ func TestC03(t *testing.T) {
 		"Non-trivial: >=3 requests and (a chunk boundary inside the stream, QUIT not last, an option-bearing command, or a handler error). Distinct = distinct (stream, chunking, script).")
 	defer h.Finish()
 	h.Probes()
+
+	if h.Shard == 0 {
+		// each extreme request alone (so that a stall is attributed), then all in one pipeline
+		for _, r := range c03Extreme {
+			c := c03Child{Reqs: [][]string{r}}
+			h.Col.Case(true, []byte(fmt.Sprint("child", r)), "child-extreme-count")
+			if !h.Thorough() {
+				break // quick: only the combined run below
+			}
+			if !h.Report("c03.child", c, evalC03Child(c)) {
+				break
+			}
+		}
+		all := c03Child{Reqs: c03Extreme}
+		h.Col.Case(true, []byte("child-all"), "child-extreme-count")
+		h.Report("c03.child", all, evalC03Child(all))
+	}
 
 	h.Rapid("pipelines", h.N(30000, 150000), func(rt *rapid.T) {
 		c, labels := genPipeline(rt, h.Avoid, 12, false)
@@ -145,7 +207,7 @@ func TestC03(t *testing.T) {
 		for l := range labels {
 			cl = append(cl, l)
 		}
-		canon := append(append([]byte{}, data...), []byte(fmt.Sprint(c.Sizes, c.ErrCalls, c.GetMode))...)
+		canon := append(append([]byte{}, data...), []byte(fmt.Sprint(c.Sizes, c.ErrCalls, c.NilCalls, c.GetMode))...)
 		h.Col.Case(nt, canon, cl...)
 		if h.Col.WantSample() {
 			h.Col.Sample(map[string]any{"requests": c.strings(), "chunk_sizes": c.Sizes, "handler_error_calls": c.ErrCalls})
